@@ -18,17 +18,19 @@ import os as _os
 CHUNK = int(_os.environ.get("VERIF_OBS_CHUNK", "400"))
 
 
-def observe(chk, module_rel, cfg_rel, batch: dict, name="obs", workers=1, timeout=1800):
+def observe(chk, module_rel, cfg_rel, batch: dict, name="obs", workers=1, timeout=1800, chunk=False):
     """Run an observer spec (Obs_Cxx.tla) over batch['traces'].
     Returns {tid(1-based): (clause, l)}; every trace must get a verdict (total verdicts).
-    Large batches are split: one TLC run per CHUNK traces, a few side by side."""
+    chunk=True (only for observers that judge every trace on its own -- some read another trace of the batch as a reference):
+    large batches are split, one TLC run per CHUNK traces, a few side by side."""
     n_all = len(batch["traces"])
-    if n_all > CHUNK:
+    if chunk and n_all > CHUNK:
         from concurrent.futures import ThreadPoolExecutor
         parts = [dict(batch, traces=batch["traces"][i:i + CHUNK]) for i in range(0, n_all, CHUNK)]
         with ThreadPoolExecutor(max_workers=4) as ex:
             outs = list(ex.map(lambda j: observe(chk, module_rel, cfg_rel, parts[j], name="%s_p%d" % (name, j),
-                                                 workers=max(1, min(workers, 4)), timeout=timeout), range(len(parts))))
+                                                 workers=max(1, min(workers, 4)), timeout=timeout, chunk=False),
+                               range(len(parts))))
         merged, res, prints = {}, None, []
         for j, (o, r) in enumerate(outs):
             for tid, v in o.items():
